@@ -27,6 +27,11 @@ def configs(n, labels):
     if n >= 2:
         sc = [float(1 + k * (k + 1) // 2) for k in range(n)]
         out.append((f"poly(scores={sc})", PolyContrasts(scores=sc), ref.poly(n, sc), True))
+        desc = list(reversed(sc))
+        out.append((f"poly(scores={desc})", PolyContrasts(scores=desc), ref.poly(n, desc), True))
+        if n >= 3:
+            mixed = [sc[k] for k in ([1, n - 1, 0] + list(range(2, n - 1)))]  # non-monotone, last < first
+            out.append((f"poly(scores={mixed})", PolyContrasts(scores=mixed), ref.poly(n, mixed), True))
     return out
 
 
